@@ -46,6 +46,7 @@ func preemptVariants() []variant {
 		{Name: "preempt-nofault", Profile: "preempt", Policy: "rtc", Steps: 110, Weight: 4},
 		{Name: "preempt-confirm", Profile: "preempt", Policy: "rtc", Steps: 110, Faults: confirmFaults, FaultRate: 0.03, Weight: 3},
 		{Name: "preempt-late", Profile: "preempt", Policy: "rtc", Steps: 110, Faults: []string{"confirm_late", "confirm_dup"}, FaultRate: 0.1, Weight: 3},
+		{Name: "preempt-interleaved", Profile: "preempt", Policy: "rnd", PreemptP: 0.1, Steps: 90, Faults: with(confirmFaults, "xchan_reorder"), FaultRate: 0.03, Weight: 2},
 		{Name: "preempt-reload", Profile: "preempt", Policy: "rtc", Steps: 110, Faults: with(confirmFaults, "reload_valid"), FaultRate: 0.03, Weight: 3},
 		{Name: "preempt-churn", Profile: "preempt", Policy: "rtc", Steps: 110, Faults: with(confirmFaults, "node_loss", "app_remove_live", "clock_jump", "predicate_flap"), FaultRate: 0.03, Weight: 2},
 	}
@@ -53,7 +54,7 @@ func preemptVariants() []variant {
 
 var plans = map[string]plan{
 	"C01": {Variants: append(stdVariants("base"), stdVariants("gang")[1], stdVariants("gang")[3], gangSwap), QuickRuns: 400, QuickSecs: 70, ThoroughRuns: 40000, ThoroughSecs: 1500},
-	"C02": {Variants: append(stdVariants("quota"), stdVariants("base")[0], stdVariants("gang")[1], gangSwap, reloadVariants("quota")[0], reloadVariants("quota")[1]), QuickRuns: 400, QuickSecs: 70, ThoroughRuns: 40000, ThoroughSecs: 1500},
+	"C02": {Variants: append(stdVariants("quota"), stdVariants("base")[0], stdVariants("gang")[1], stdVariants("gang")[2], gangSwap, gangSwap, reloadVariants("quota")[0], reloadVariants("quota")[1]), QuickRuns: 400, QuickSecs: 70, ThoroughRuns: 40000, ThoroughSecs: 1500},
 	"C03": {Variants: append(append(stdVariants("base"), stdVariants("gang")...), gangSwap), QuickRuns: 400, QuickSecs: 70, ThoroughRuns: 40000, ThoroughSecs: 1500},
 	"C04": {Variants: append(append(stdVariants("base"), stdVariants("gang")...), gangSwap), QuickRuns: 400, QuickSecs: 70, ThoroughRuns: 40000, ThoroughSecs: 1500},
 	"C05": {Variants: append(append(append(stdVariants("limits"), stdVariants("quota")[0]), reloadVariants("limits")...), stdVariants("gang")[1], stdVariants("gang")[2]), QuickRuns: 400, QuickSecs: 70, ThoroughRuns: 40000, ThoroughSecs: 1500},
@@ -88,7 +89,7 @@ var plans = map[string]plan{
 	"C08": {Variants: preemptVariants(), QuickRuns: 400, QuickSecs: 70, ThoroughRuns: 40000, ThoroughSecs: 1500},
 	"C17": {Variants: append(append(stdVariants("place")[:2:2], reloadVariants("place")...), stdVariants("quota")[0], stdVariants("maxapps")[0]), QuickRuns: 400, QuickSecs: 70, ThoroughRuns: 40000, ThoroughSecs: 1500},
 	"C19": {Variants: append(append(stdVariants("sort")[:3:3], stdVariants("preempt")[0]), stdVariants("quota")[0], reloadVariants("sort")[0]), QuickRuns: 400, QuickSecs: 70, ThoroughRuns: 40000, ThoroughSecs: 1500},
-	"C09": {Variants: append(stdVariants("base"), stdVariants("gang")[1], stdVariants("gang")[2], stdVariants("gang")[5], preemptVariants()[0], preemptVariants()[0], preemptVariants()[1], preemptVariants()[2], preemptVariants()[4]), QuickRuns: 400, QuickSecs: 70, ThoroughRuns: 40000, ThoroughSecs: 1500},
+	"C09": {Variants: append(stdVariants("base"), stdVariants("gang")[1], stdVariants("gang")[2], stdVariants("gang")[5], preemptVariants()[0], preemptVariants()[0], preemptVariants()[1], preemptVariants()[2], preemptVariants()[5]), QuickRuns: 400, QuickSecs: 70, ThoroughRuns: 40000, ThoroughSecs: 1500},
 	"C10": {Variants: append(append(stdVariants("base"), stdVariants("gang")...), gangSwap), QuickRuns: 400, QuickSecs: 70, ThoroughRuns: 40000, ThoroughSecs: 1500},
 	"C11": {Variants: append(stdVariants("maxapps"), reloadVariants("maxapps")[0], reloadVariants("maxapps")[1]), QuickRuns: 400, QuickSecs: 70, ThoroughRuns: 40000, ThoroughSecs: 1500},
 }
